@@ -338,3 +338,184 @@ Proof.
 Qed.
 
 End Decl.
+
+(* ================= derived facts ================= *)
+Section Derived.
+Variable f : rflags.
+
+(* a run of l characters from a position *)
+Fixpoint pwalk (p : pst) (l : list N) : pst :=
+  match l with
+  | [] => p
+  | c :: t => pwalk (pstep p c (t ++ skipn (length l) (prest p))) t
+  end.
+
+Definition padv (p : pst) (l : list N) (r : list N) : pst :=
+  {| ppre := rev l ++ ppre p; prest := r; ppos := ppos p + length l |}.
+
+(* greedy repeat of a one-character test = any number (within bounds) of matching characters *)
+Lemma reps_chars_inv test mn mx : forall cnt last p p',
+  reps (char_step test) mn mx cnt last p p' ->
+  exists l r, prest p = l ++ r /\ forallb test l = true /\ p' = padv p l r /\
+            mn <= cnt + length l /\ match mx with Some m => l = [] \/ cnt + length l <= m | None => True end.
+Proof.
+  intros cnt last p p' H. induction H as [cnt last p Hm|cnt last p p1 p2 H1 H2 H3 H4 IH].
+  - exists [], (prest p). repeat split; try (cbn; lia).
+    + destruct p; unfold padv; cbn. rewrite Nat.add_0_r. reflexivity.
+    + destruct mx; auto.
+  - destruct H3 as (c & t & Hr & Ht & ->). destruct IH as (l & r & Hl & Hf & Hp & Hmn & Hmx).
+    exists (c :: l), r. cbn [pstep prest] in Hl. repeat split.
+    + rewrite Hr, Hl. reflexivity.
+    + cbn. rewrite Ht, Hf. reflexivity.
+    + rewrite Hp. unfold padv, pstep. cbn. f_equal; [rewrite <- app_assoc; reflexivity|lia].
+    + cbn [length]. lia.
+    + destruct mx as [m|]; [|exact I]. right. cbn [length]. destruct Hmx as [->|Hmx]; cbn [length]; lia.
+Qed.
+
+Lemma reps_chars_intro test mn mx l : forall cnt last p r,
+  prest p = l ++ r -> forallb test l = true ->
+  mn <= cnt + length l -> match mx with Some m => cnt + length l <= m | None => True end ->
+  (l <> [] -> cnt < mn \/ match last with Some q => q <> ppos p | None => True end) ->
+  reps (char_step test) mn mx cnt last p (padv p l r).
+Proof.
+  induction l as [|c l IH]; intros cnt last p r Hr Hf Hmn Hmx Hfresh.
+  - cbn in *. assert (padv p [] r = p) as ->.
+    { destruct p; unfold padv; cbn in *. subst. rewrite Nat.add_0_r. reflexivity. }
+    apply reps_done. lia.
+  - cbn [forallb] in Hf. apply andb_true_iff in Hf. destruct Hf as [Hc Hl]. cbn [length] in *.
+    eapply (reps_more _ _ _ _ _ _ (pstep p c (l ++ r))).
+    + destruct mx; [lia|exact I].
+    + apply Hfresh. discriminate.
+    + exists c, (l ++ r). auto.
+    + assert (E : padv p (c :: l) r = padv (pstep p c (l ++ r)) l r).
+      { unfold padv, pstep. cbn. f_equal; [rewrite <- app_assoc; reflexivity|lia]. }
+      rewrite E. apply IH; [reflexivity|exact Hl|lia|destruct mx; [lia|exact I]|intros _; right; cbn; lia].
+Qed.
+
+Lemma lit_step_inv l p p' : icase f = false ->
+  char_step (lit_test f l) p p' -> exists t, prest p = l :: t /\ p' = pstep p l t.
+Proof.
+  intros Hi (c & t & Hr & Ht & ->). unfold lit_test in Ht. rewrite Hi in Ht.
+  apply N.eqb_eq in Ht. subst. exists t. auto.
+Qed.
+
+Lemma lit_step_intro l p t : icase f = false -> prest p = l :: t -> char_step (lit_test f l) p (pstep p l t).
+Proof.
+  intros Hi Hr. exists l, t. repeat split; [exact Hr|]. unfold lit_test. rewrite Hi. apply N.eqb_refl.
+Qed.
+
+(* ---------- continuations only matter pointwise ---------- *)
+Lemma rep_loop_ext {A} (body : st -> (st -> option A) -> option A) mn mx (k1 k2 : st -> option A) :
+  (forall s ka kb, (forall x, ka x = kb x) -> body s ka = body s kb) ->
+  (forall x, k1 x = k2 x) ->
+  forall fuel cnt last s, rep_loop body mn mx k1 fuel cnt last s = rep_loop body mn mx k2 fuel cnt last s.
+Proof.
+  intros Hb Hk. induction fuel as [|fuel IH]; intros cnt last s; [reflexivity|].
+  cbn [rep_loop]. cbv zeta. rewrite Hk.
+  assert (E : body s (fun s' => rep_loop body mn mx k1 fuel (S cnt) (Some (pos s)) s')
+            = body s (fun s' => rep_loop body mn mx k2 fuel (S cnt) (Some (pos s)) s')).
+  { apply Hb. intros x. apply IH. }
+  rewrite E. reflexivity.
+Qed.
+
+Lemma mt_ext r : forall A (s : st) (k1 k2 : st -> option A),
+  (forall x, k1 x = k2 x) -> mt f r s k1 = mt f r s k2.
+Proof.
+  induction r as [| l | l | | neg items | a IHa b IHb | a IHa b IHb | body IHb mn mx
+                  | n a IHa | neg a IHa | neg a IHa | | | ]; intros A s k1 k2 Hk; cbn [mt].
+  - apply Hk.
+  - destruct (rest s); [reflexivity|]. rewrite Hk. reflexivity.
+  - destruct (rest s); [reflexivity|]. rewrite Hk. reflexivity.
+  - destruct (rest s); [reflexivity|]. rewrite Hk. reflexivity.
+  - destruct (rest s); [reflexivity|]. rewrite Hk. reflexivity.
+  - apply IHa. intros x. apply IHb. exact Hk.
+  - rewrite (IHa A s k1 k2 Hk), (IHb A s k1 k2 Hk). reflexivity.
+  - apply rep_loop_ext; [|exact Hk]. intros s0 ka kb H. apply IHb. exact H.
+  - apply IHa. intros x. apply Hk.
+  - destruct (mt f a s (fun s' => Some s')); destruct neg; rewrite ?Hk; reflexivity.
+  - rewrite Hk. reflexivity.
+  - destruct (pre s); [rewrite Hk; reflexivity|reflexivity].
+  - destruct (rest s) as [|c [|c2 t]]; rewrite ?Hk; reflexivity.
+  - rewrite Hk. reflexivity.
+Qed.
+
+(* ---------- patterns anchored with ^ : finditer / sub ---------- *)
+Lemma finditer_go_bol r fuel : forall s x, pre s <> [] -> finditer_go f (Seq Bol r) fuel s x = [].
+Proof.
+  induction fuel as [|fuel IH]; intros s x Hp; [reflexivity|].
+  cbn [finditer_go]. cbn [mt pre]. destruct (pre s) eqn:E; [congruence|].
+  destruct (rest s) as [|c t]; [reflexivity|]. apply IH. cbn. discriminate.
+Qed.
+
+Lemma advance_pre n : forall s, 0 < n -> rest s <> [] -> pre (advance n s) <> [].
+Proof.
+  induction n as [|n IH]; intros s Hn Hr; [lia|].
+  cbn [advance]. destruct (rest s) as [|c t]; [congruence|].
+  destruct n as [|n'].
+  - cbn. discriminate.
+  - destruct t as [|c2 t2].
+    + cbn. discriminate.
+    + apply IH; [lia|cbn; discriminate].
+Qed.
+
+Lemma finditer_first r s fuel :
+  finditer_go f r (S fuel) (st0 s) None =
+  match re_match f r s with
+  | Some m =>
+      let s' := advance (m_end m - m_start m) (st0 s) in
+      m :: finditer_go f r fuel s' (if Nat.eqb (m_end m) (m_start m) then Some (pos s') else Some (pos s'))
+  | None => match s with c :: t => finditer_go f r fuel (st_step (st0 s) c t) None | [] => [] end
+  end.
+Proof.
+  cbn [finditer_go].
+  change {| pre := pre (st0 s); rest := rest (st0 s); pos := pos (st0 s); caps := [] |} with (st0 s).
+  assert (E : mt f r (st0 s)
+                (fun s' => if Nat.eqb (pos s') (pos (st0 s)) && false then None
+                           else Some {| m_start := pos (st0 s); m_end := pos s'; m_caps := caps s' |})
+              = re_match f r s).
+  { unfold re_match, match_at.
+    change {| pre := pre (st0 s); rest := rest (st0 s); pos := pos (st0 s); caps := [] |} with (st0 s).
+    apply mt_ext. intros x. rewrite andb_false_r. reflexivity. }
+  rewrite E. destruct (re_match f r s) as [m|]; [|reflexivity].
+  destruct (Nat.eqb (m_end m) (m_start m)); reflexivity.
+Qed.
+
+(* an anchored pattern is found at most once, at position 0 (when that match is not empty) *)
+Theorem finditer_bol r s m :
+  re_match f (Seq Bol r) s = Some m -> 0 < m_end m -> re_finditer f (Seq Bol r) s = [m].
+Proof.
+  intros Em Hpos. unfold re_finditer.
+  replace (2 * length s + 2) with (S (2 * length s + 1)) by lia.
+  rewrite finditer_first, Em. cbv zeta.
+  pose proof (re_match_sound f _ _ _ Em) as [Hs (p' & Hm & Hp)].
+  apply matches_advances in Hm. unfold advances in Hm. cbn in Hm.
+  f_equal. apply finditer_go_bol. apply advance_pre; [lia|].
+  cbn. intros ->. cbn in Hm. lia.
+Qed.
+
+Theorem finditer_bol_none r s :
+  re_match f (Seq Bol r) s = None -> re_finditer f (Seq Bol r) s = [].
+Proof.
+  intros Em. unfold re_finditer.
+  replace (2 * length s + 2) with (S (2 * length s + 1)) by lia.
+  rewrite finditer_first, Em. destruct s as [|c t]; [reflexivity|].
+  apply finditer_go_bol. cbn. discriminate.
+Qed.
+
+(* hence re.sub on an anchored pattern replaces the matched prefix only *)
+Theorem sub_bol r repl s m :
+  re_match f (Seq Bol r) s = Some m -> 0 < m_end m ->
+  re_sub f (Seq Bol r) repl s = repl ++ skipn (m_end m) s.
+Proof.
+  intros Em Hpos. unfold re_sub, re_subf. rewrite (finditer_bol r s m Em Hpos).
+  pose proof (re_match_sound f _ _ _ Em) as [Hs _].
+  cbn [sub_go]. rewrite Hs. unfold slice. cbn. reflexivity.
+Qed.
+
+Theorem sub_bol_none r repl s :
+  re_match f (Seq Bol r) s = None -> re_sub f (Seq Bol r) repl s = s.
+Proof.
+  intros Em. unfold re_sub, re_subf. rewrite (finditer_bol_none r s Em). reflexivity.
+Qed.
+
+End Derived.
